@@ -74,7 +74,7 @@ CORE = ['wl_registry', 'wl_callback', 'wl_compositor', 'wl_shm', 'wl_shm_pool', 
 UNKNOWN_IFACES = ['my_unknown_iface', 'zz_custom_v9', 'new', 'x', 'ACME_panel', 'Foo']      # (wayland-scanner accepts any C identifier)
 STRS = ['', 'a', 'wl_seat', 'wl_shm', 'hello world', 'a, b', 'x) y', '(p', '[q]', 'wl_surface@3', 'nil', '12', 'new id wl_a@4', 'ünï', "it's", 'fd 3',
         'array', ' lead', 'trail ', 'org.gnome.gedit', 'foo.bar.Baz', 'title: x', '}', '{', '1.5', '[1.0] a@1.b(',
-        '[5.000]  -> wl_surface@9.commit()', '[   7.250]  -> wl_x#3.y(1)', '2 discarded drafts', 'x discarded y']      # a whole sent-looking message with its own time inside a string
+        '[5.000]  -> wl_surface@9.commit()', '[   7.250]  -> wl_x#3.y(1)', '2 discarded drafts', 'x discarded y', '50% done', '%s of %d', '100%', '{0} {name}']      # a whole sent-looking message with its own time inside a string
 LONG_TITLES = ['Quarterly report (final, really final) - spreadsheet.ods - Some Office Suite 7.4', 'x' * 64, 'https://example.org/a/very/long/path/to/a/page?with=query&and=more#fragment - Browser',
                'org.example.AnApplicationWithAVeryLongReverseDomainIdentifier.Window']
 FREE_NAMES = ['ping', 'set_thing', 'done', 'new', 'destroyed', 'configure', 'commit', 'Frob', 'setX']
@@ -637,6 +637,39 @@ class ConnGen:
                 a[1], a[2] = pa.interface, None
         return m
 
+    def step_null_strings(self, d):
+        """a message whose nullable string arguments are nil (`nil` where a string could be: each carries the name of its own position)"""
+        P = protocols()
+        cands = []
+        for oid, iface in sorted(self.live.items()):
+            pi = P.get(iface)
+            if pi is None:
+                continue
+            for m in pi.msgs:
+                if any(a.type == 'string' and a.allow_null for a in m.args) and all(a.type != 'new_id' and (a.type != 'object' or a.allow_null) for a in m.args):
+                    cands.append((oid, iface, m))
+        if len({(c[1], c[2].name) for c in cands}) < 2:
+            have = {c[1] for c in cands}
+            want = [t for t in ['wl_data_source', 'wl_data_offer', 'zwp_text_input_v3', 'zwp_text_input_v1', 'wl_shell_surface'] if t in P and t not in have]
+            if want:
+                self._nullstr_next = 4      # messages with nil strings should follow soon
+                return self.step_bind(d, iface=d.choice(want))
+        if not cands:
+            return None
+        last = getattr(self, '_nullstr_last', None)
+        other = [c for c in cands if (c[1], c[2].name) != last]
+        oid, iface, pm = d.choice(other or cands)      # preferably another message than last time (another argument name)
+        m = self._protocol_message(d, oid, iface, pm)
+        if m is None:
+            return None
+        self._nullstr_last = (iface, pm.name)
+        for a, pa in zip(m['args'], pm.args):
+            if pa.type == 'string' and pa.allow_null:
+                a[1] = None
+            if pa.type == 'object' and pa.allow_null and d.chance(0.5):
+                a[1], a[2] = pa.interface, None
+        return m
+
     def step_appid(self, d):
         """an app id that reads like a connection name (`connection b` must still mean the connection *named* B)"""
         tl = self.pick_obj(d, 'xdg_toplevel')
@@ -696,6 +729,9 @@ class ConnGen:
                 kind = 'server_retype'
             if getattr(self, '_twin_plan', None) and w.get('twins') and d.chance(0.6):
                 kind = 'twins'
+            if getattr(self, '_nullstr_next', 0) and w.get('null_strings') and d.chance(0.7):
+                kind = 'null_strings'
+                self._nullstr_next -= 1
         m = None
         if kind == 'delete': m = self.step_delete(d)
         elif kind == 'bind': m = self.step_bind(d)
@@ -709,6 +745,7 @@ class ConnGen:
         elif kind == 'kinds': m = self.step_kinds(d)
         elif kind == 'newer': m = self.step_newer(d)
         elif kind == 'nulls': m = self.step_nulls(d)
+        elif kind == 'null_strings': m = self.step_null_strings(d)
         elif kind == 'repeat': m = self.step_repeat(d)
         elif kind == 'midsession': m = self.step_midsession(d)
         elif kind == 'long_line': m = self.step_long_line(d)
